@@ -95,7 +95,7 @@ theorem residuals_pinned : Gen.AsyncPairs.residuals = [
     ("liquid/ast.py:Node.children", "6ae502c3e4bd6e55"),
     ("liquid/ast.py:Node.render_to_output", "432292b60380f9ee"),
     ("liquid/ast.py:BlockNode.render_to_output", "574041b432ff56fa"),
-    ("liquid/builtin/expressions/filtered.py:Filter.evaluate", "5cf9f76b1f802c22"),
+    ("liquid/builtin/expressions/filtered.py:Filter.evaluate", "09c1f17ba735c946"),
     ("liquid/builtin/expressions/loop.py:LoopExpression.evaluate", "8b3fde71b2427f4e"),
     ("liquid/builtin/loaders/file_system_loader.py:FileSystemLoader._uptodate", "2796d84535ef6c49"),
     ("liquid/builtin/loaders/file_system_loader.py:FileSystemLoader.get_source", "aa3f07ea79aca077"),
